@@ -527,6 +527,22 @@ class Evaluator:
                 if r is not NOT_MODELLED:
                     return r
             raise Unsupported(e)
+        if isinstance(e, ast.Call) and isinstance(e.func, (ast.Subscript, ast.Name)) and not e.keywords and 1 <= len(e.args) <= 2 \
+                and not (isinstance(e.func, ast.Name) and e.func.id in self.env and not callable(self.env.get(e.func.id))):
+            # a value that IS a function of the stdlib operator module (looked up in a table of operators, or imported by name)
+            try:
+                fv = self.ev(e.func) if isinstance(e.func, ast.Subscript) else (self.env.get(e.func.id) if e.func.id in self.env else (self.sym(e.func) if self.sym else None))
+            except (Unsupported, KeyError):
+                fv = None
+            if callable(fv) and getattr(fv, "__module__", None) in ("_operator", "operator"):
+                args_v = [self.ev(a) for a in e.args]
+                if all(isinstance(a, (int, bool)) for a in args_v):
+                    try:
+                        return fv(*args_v)
+                    except ZeroDivisionError:
+                        raise ModelRaise(Outcome("raise", "ZeroDivisionError", e))
+                    except (ValueError, OverflowError, TypeError):
+                        raise ModelRaise(Outcome("raise", "ValueError", e))
         if isinstance(e, ast.Call) and isinstance(e.func, ast.Attribute) and e.func.attr == "join" and len(e.args) == 1 and not e.keywords \
                 and isinstance(e.func.value, ast.Constant) and isinstance(e.func.value.value, (str, bytes)) and e.func.value.value:
             # <literal separator>.join(seq) over a modelled sequence of str / bytes
